@@ -41,7 +41,7 @@ def pairs(ctx, name, ts, mu, Ne, method, space, seed, variants=("renumber", "ret
         return
     if method == "maximization":
         ties = bp.check_real_maximization(ctx, PID, name, ts, f0, 1e-8, mu, space, inst, report=False)
-        if ties is None or ties > 0:
+        if ties is not None and ties > 0:      # (None: the rule itself is broken -- C13's business; compare anyway)
             ctx.count("guard_skipped_argmax_tie")
             return
     t0 = np.asarray(d0.nodes_time)
@@ -85,6 +85,9 @@ def run(ctx):
         "products over a node's edges commute exactly in the model and to rounding in the code (rtol 1e-9)",
     ]
     _, dags = bp.order_run(ctx, "c11_o", NS=2, NI=3, max_edges=5 if q else 6, tmax=3, emit=True)
+    if not q:
+        _, more = bp.order_run(ctx, "c11_o3", NS=3, NI=3, max_edges=5, tmax=3, emit=True)
+        dags += more
     _, insts = bp.io_run(ctx, "c11_io", NS=4, NI=3, G=2, vals=(0, 1, 2), perms="all", mode="hash",
                          seeds=range(1, 7 if q else 40), canon=q, min_kids=2, emit=True)
     bp.max_run(ctx, "c11_m", NS=2, NI=3, G=2, mult=1, max_edges=2 if q else 3, ins=(0, 1), lik=(1, 2))
